@@ -451,6 +451,61 @@ def r21q(F):
     return r
 
 
+def r21m(F):
+    r = RuleResult("R21m", "a candidate is dropped only as a true duplicate",
+                   "Shape::equivalent is one-directional on tuples, lists and modules (every part of the left occurs in the right). "
+                   "NarrowedShape::merge_in_shape, which collects the possible results of a select, may therefore drop an incoming "
+                   "shape as a duplicate only when the test holds in both directions; dropped on one direction alone, a later arm "
+                   "that extends an earlier one is lost and its extra fields are rejected", floor=1)
+    name = "ucglib::ast::NarrowedShape::merge_in_shape"
+    eqn = SHAPE + "::equivalent"
+    fn = F.fn(name)
+    eq = F.fn(eqn)
+    need(fn is not None and eq is not None, "merge_in_shape / Shape::equivalent not found")
+    # is `equivalent` still directional?  A comparison of the two field counts would make the tuple arm symmetric.
+    lens = [b for b, t in eq.calls() if callee(t).endswith("Vec<T, A>::len") or callee(t).endswith("Vec<T,A>::len")]
+    need(not lens, "Shape::equivalent compares lengths of its two sides: whether it is still one-directional is not decided here")
+    calls = [(b, t) for b, t in fn.calls() if callee(t) == eqn]
+    need(calls, "merge_in_shape does not call Shape::equivalent (de-duplication idiom not recognised)")
+    nexts = {b for b, t in fn.calls() if callee(t).endswith("::next")}
+    keeps = {b for b, t in fn.calls() if callee(t).endswith("::push")} | \
+            {b for b, j, pl, rv, m in fn.assigns() if rv["k"] == "agg" and rv.get("adt") == NARROWING}
+    need(nexts and keeps, "merge_in_shape: candidate loop / push not found")
+
+    def role(op):
+        src = util.source_calls(fn, op)
+        if any(c[0] != "param" and c[0].endswith("::next") for c in src):
+            return "candidate"
+        if ("param", 2) in src:
+            return "incoming"
+        return "?"
+    orders = {}
+    for b, t in calls:
+        orders.setdefault((role(t["args"][0]), role(t["args"][1])), []).append((b, t))
+    need(all("?" not in k for k in orders), "merge_in_shape: operands of equivalent not identified (%s)" % sorted(orders))
+    exits = set(cfg.exits(fn))
+    bad = []
+    for want in (("candidate", "incoming"), ("incoming", "candidate")):
+        sites = orders.get(want, [])
+        if not sites:
+            bad.append("%s.equivalent(%s) is never asked" % want)
+            continue
+        for b, t in sites:
+            # a `false` answer must not lead to dropping the incoming shape: from the false edge no exit without passing the next
+            # candidate or the push
+            sws = util.bool_switches(fn, t["dest"]["l"])
+            need(sws, "merge_in_shape: the answer of equivalent is not branched on directly (combined some other way)")
+            for sb, ft, tt in sws:
+                reach = cfg.reachable(fn, ft, removed=nexts | keeps)
+                if reach & exits:
+                    bad.append("a false answer of %s.equivalent(%s) still drops the shape" % want)
+    r.inst("merge_in_shape:duplicate-both-ways", fn.where(calls[0][0]), not bad,
+           "the incoming shape is dropped only when it and a candidate contain each other" if not bad else
+           "%s: `select (t) => { a = {cpu = 1}, b = {cpu = 4, mem = 16} }` keeps only `{cpu}` and `.mem` of the result is rejected "
+           "(\"No candidate type has field 'mem'\") although it evaluates" % "; ".join(bad))
+    return r
+
+
 from . import c09 as _c09
 
-RULES = [r21a, r21b, r21c, r21h, r21p, r21s, r21d, r21n, r21q, _c09.r25p]
+RULES = [r21a, r21b, r21c, r21h, r21p, r21s, r21d, r21n, r21q, r21m, _c09.r25p]
